@@ -384,6 +384,42 @@ func HistoryCorpus() []*Scenario {
 	return out
 }
 
+// PairHistoryCorpus: every ordered pair (earlier request, scenario) of POST scenarios of the corpus on
+// one application and one long-lived Actor (state a library change keeps on the Actor, or leaves in
+// the application, shows in the second request).
+func PairHistoryCorpus() []*Scenario {
+	var posts []*Scenario
+	for _, sc := range Corpus() {
+		if (sc.Entry == "PostInbox" || sc.Entry == "PostOutbox") && sc.Body != nil {
+			posts = append(posts, sc)
+		}
+	}
+	var out []*Scenario
+	for _, p := range posts {
+		earlier := *p
+		earlier.Name += "/earlier"
+		if id, ok := p.Body["id"].(string); ok {
+			b := M{}
+			for k, v := range p.Body {
+				b[k] = v
+			}
+			b["id"] = id + "-earlier"
+			earlier.Body = b
+		}
+		for _, sc := range posts {
+			if sc == p {
+				continue // HistoryCorpus has the same-kind pairs (also under faults)
+			}
+			c := *sc
+			c.Name = sc.Name + "+after+" + p.Name
+			e := earlier
+			c.Prelude = []*Scenario{&e}
+			out = append(out, &c)
+		}
+	}
+	return out
+}
+
 // Corpus returns the scenarios covering every default side-effect path of both protocols.
 func Corpus() []*Scenario {
 	var s []*Scenario
